@@ -305,9 +305,11 @@ def run(chk):
             rets = [show(e) for e in rexp]
             derived = only_from_params(mb, rexp)
             joined = " | ".join(rets)
-            has_lookup = any("get(" in r and want in r and "as Some" in r for r in rets)
+            # the table read as `TABLE.get(k)` or as a guarded `TABLE[k]` of the converter's own character
+            direct = re.compile(r"^\*?%s\[\((?:attributed_char\.)?ch as usize\)\]$" % re.escape(want))
+            has_lookup = any(("get(" in r and want in r and "as Some" in r) or direct.match(r) for r in rets)
             has_ident = any(r in ("ch", "attributed_char.ch") for r in rets)
-            extra = [r for r in rets if not ("get(" in r and want in r) and r not in ("ch", "attributed_char.ch")]
+            extra = [r for r in rets if not ("get(" in r and want in r) and not direct.match(r) and r not in ("ch", "attributed_char.ch")]
             if name in ("viewdata", "mode7") and meth == "convert_from_unicode":
                 extra = [r for r in extra if r != "32"]
             ok = has_lookup and has_ident and not extra and not derived
